@@ -94,6 +94,21 @@ pub fn universe(rng: &mut Rng, target: &[u8; 20], size: usize) -> (Vec<N>, u64) 
             }
         }
         v.push(n);
+        // the address of an earlier node listed again under another id (a node that re-keyed, a stale
+        // entry next to a fresh one, a lying responder): same security class or the other one
+        if rng.chance(1, 12) {
+            let o = *rng.pick(&v);
+            let mut id2: [u8; 20] = rng.array();
+            if rng.bool() {
+                id2 = *target;
+                id2[rng.usize(20)] ^= 1 << rng.usize(8);
+            }
+            if rng.bool() {
+                id2 = bep42_mint(*o.1.ip(), rng.u32() as u8, id2);
+            }
+            v.push((id2, o.1));
+            feat |= 128;
+        }
     }
     (v, feat)
 }
@@ -164,6 +179,29 @@ pub fn check_table(r: &mut Report, rng: &mut Rng, uni: &[N], feat: u64, targets:
             }
         }
         r.count("churned_tables");
+    }
+    // a re-keyed table (the node took a BEP42 id for its confirmed address): afterwards members are refreshed
+    // (every answer to a ping or lookup re-adds its sender) and newcomers arrive
+    if rng.chance(1, 3) && !uni.is_empty() {
+        let mut nid: [u8; 20] = rng.array();
+        if rng.bool() {
+            // near the old id: only some buckets move
+            nid = table_id;
+            nid[rng.usize(20)] ^= 1 << rng.usize(8);
+        }
+        dht::verif::reset_id(&mut table, Id::from(nid));
+        for t in &targets {
+            let _ = table.closest(Id::from(*t));
+        }
+        let mut order_: Vec<&N> = uni.iter().collect();
+        rng.shuffle(&mut order_);
+        for n in order_.iter().take(rng.usize(uni.len() + 1)) {
+            table.add(Node::new(Id::from(n.0), n.1));
+        }
+        for _ in 0..rng.usize(6) {
+            table.add(Node::new(Id::from(rng.array::<20>()), SocketAddrV4::new(pub_ip(rng), 6881)));
+        }
+        r.count("tables_rekeyed_then_refreshed");
     }
     // replacement at constant size: one member leaves, newcomers are tried until the size is what it was
     if rng.chance(1, 2) && !uni.is_empty() {
@@ -270,7 +308,7 @@ pub fn check_accumulator(r: &mut Report, rng: &mut Rng, uni: &[N], feat: u64, t:
         }
         r.count("take_until_secure_calls");
     }
-    if feat & 0x18 == 0x18 || feat & 32 != 0 || feat & 7 != 0 {
+    if feat & 0x18 == 0x18 || feat & 32 != 0 || feat & 7 != 0 || feat & 128 != 0 {
         r.nontrivial(mix(fnv(t) ^ 0xacc, case_id));
     }
 }
